@@ -1263,6 +1263,139 @@ fn main() {
         sp.done(true, &format!("{} key counts x 2 orders x 3 subjects, each on its own OS thread", ns.len()));
     }
 
+    //---------------------------------------------------------------- object-level history
+    // State that lives INSIDE one `Cert` value (a memo of an earlier verdict, of the key a
+    // signature was checked with, of resolved resources) and outlives a call: one decoded
+    // object and its clones are judged again and again by calls that differ in what the
+    // acceptance predicate depends on; a freshly decoded twin that only ever sees the one
+    // call is the reference.
+    {
+        use rpki::repository::tal::TalInfo;
+        use rpki::repository::x509::{Time, Validity};
+        let thorough = ctx.tier.is_thorough();
+        let sp = ctx.space("object.history",
+            "ONE decoded Cert object per subject {sub-CA, EE, router x refuse / trim (sub-CA, EE also: v4 and AS inherited); trust anchor} and its clones, validated repeatedly: every ordered pair (thorough: also every triple over the core of the menu) of calls out of the menu {main route validate_X_at(strict) x 11 offered issuers x 3 instants (inside, 1 s before, 1 s after the window); the routes validate_X_at(relaxed), inspect_X + verify_X_at with every issuer at the inside instant and with the right issuer at the other instants; the wall-clock routes validate_X, inspect_X + verify_X with every issuer; for EE objects the detached-EE routes as well; the pieces verify_validity x instants, verify_issuer_claim / verify_signature x issuers, inspect_{ca,ee,detached_ee,router,ta} strict and relaxed; the sibling routes of the other kinds; trust anchor: validate_ta_at / inspect_ta + verify_ta_at x 2 TALs x instants, verify_ta_ref[_at], validate_ta}; offered issuers: the right one, the SAME KEY re-issued with fewer AS / fewer IPv4 / fewer IPv6 / IPv4 only / more resources, a trimming-policy issuer certificate validated under a smaller trust anchor (effective resources differ from what its certificate says), ONE all-inherit issuer certificate validated under the smaller and under the full trust anchor (same octets, different validated resources), another key, another key carrying the issuer's subject key identifier value; x object carrier {every call on the same object (by-value routes consume a clone made at call time); continue on the certificate recovered from the ResourceCert the previous call returned; continue on a clone made after the call, original dropped; first call on the original, the rest on a clone made BEFORE it}; oracle (differential): verdict, resulting resources and TAL of the LAST call equal those of a freshly decoded twin given that call alone; and the twin's answer equals the interval model (accept <=> route fits the kind, issuer key and key identifier right, instant inside, claims covered under refuse; result = claim | claim & issuer | issuer's); non-trivial = sequences whose last call's answer (fresh) differs from the answer of an earlier call of the sequence");
+        let y2000 = Time::utc(2000, 1, 1, 0, 0, 0).timestamp();
+        let y2100 = Time::utc(2100, 1, 1, 0, 0, 0).timestamp();
+        let window = Validity::new(time(y2000), time(y2100));
+        let db8 = 0x2001_0db8u128 << 96;
+        let v6p = |lo: u128, len: u32| -> (u128, u128) { (lo, lo | ((1u128 << (128 - len)) - 1)) };
+        let all_iv: [Iv; 3] = [vec![(0, u32::MAX as u128)], vec![(0, u128::MAX)], vec![(0, u32::MAX as u128)]];
+        // the two trust anchors (same key): everything, and a small one under its own TAL
+        let full = Res { v4: Claim::Blocks(vec![(0x0a00_0000, 0x0aff_ffff), (0xc000_0200, 0xc000_02ff)]), v6: Claim::Blocks(vec![v6p(db8, 32)]), asn: Claim::Blocks(vec![(64496, 64511)]) };
+        let small = Res { v4: Claim::Blocks(vec![(0x0a00_0000, 0x0a00_01ff)]), v6: Claim::Blocks(vec![(0, u128::MAX)]), asn: Claim::Blocks(vec![(64496, 64505)]) };
+        let small_iv: [Iv; 3] = [vec![(0x0a00_0000, 0x0a00_01ff)], vec![(0, u128::MAX)], vec![(64496, 64505)]];
+        let ta_small = build_cert(&signer, &Spec::ta(TA_KEY, small.clone())).validate_ta_at(TalInfo::from_name("small".into()).into_arc(), true, time(T0)).expect("small TA validates");
+        let inherit_all = Res { v4: Claim::Inherit, v6: Claim::Inherit, asn: Claim::Inherit };
+        // (name, subject key, under the small TA?, what the issuer certificate says, its policy, carries CA_KEY's identifier although it has another key?)
+        let issuer_specs: Vec<(&'static str, usize, bool, Res, Overclaim, bool)> = vec![
+            ("right", CA_KEY, false, full.clone(), Overclaim::Refuse, false),
+            ("same-key-fewer-as", CA_KEY, false, Res { asn: Claim::Blocks(vec![(64496, 64505)]), ..full.clone() }, Overclaim::Refuse, false),
+            ("same-key-fewer-v4", CA_KEY, false, Res { v4: Claim::Blocks(vec![(0x0a00_0000, 0x0a00_01ff)]), ..full.clone() }, Overclaim::Refuse, false),
+            ("same-key-fewer-v6", CA_KEY, false, Res { v6: Claim::Blocks(vec![v6p(db8, 49)]), ..full.clone() }, Overclaim::Refuse, false),
+            ("same-key-v4-only", CA_KEY, false, Res { v6: Claim::Missing, asn: Claim::Missing, ..full.clone() }, Overclaim::Refuse, false),
+            ("same-key-more", CA_KEY, false, Res::all(), Overclaim::Refuse, false),
+            ("same-key-trimmed-under-small-ta", CA_KEY, true, full.clone(), Overclaim::Trim, false),
+            ("same-key-inherit-under-small-ta", CA_KEY, true, inherit_all.clone(), Overclaim::Refuse, false),
+            ("same-key-inherit-under-full-ta", CA_KEY, false, inherit_all.clone(), Overclaim::Refuse, false),
+            ("other-key", OTHER_KEY, false, full.clone(), Overclaim::Refuse, false),
+            ("other-key-same-ski-value", CA2_KEY, false, full.clone(), Overclaim::Refuse, true),
+        ];
+        let mut issuers: Vec<OIssuer> = Vec::new();
+        for (n, (name, key, under_small, res, mode, forged_ski)) in issuer_specs.into_iter().enumerate() {
+            let (parent, parent_iv, tal_name) = if under_small { (&ta_small, &small_iv, "small") } else { (&ta, &all_iv, "verif") };
+            let mut spec = Spec::issued(Kind::Ca, key, TA_KEY, ta_ski, res.clone(), mode);
+            spec.serial = 100 + n as u128;
+            if forged_ski { spec.ski_override = Some(signer.ski(CA_KEY)) }
+            let cert = build_cert(&signer, &spec);
+            // verify_ca_at does not compare the subject key identifier with the key: the only way to a
+            // ResourceCert with a foreign identifier
+            let rc = if forged_ski { guard(|| cert.verify_ca_at(parent, true, time(T0)).ok()) } else { guard(|| cert.validate_ca_at(parent, true, time(T0)).ok()) };
+            let Ok(Some(rc)) = rc else {
+                if forged_ski { ctx.assume("object.history: verify_ca_at refuses a CA certificate whose SKI is not the hash of its key; the same-SKI-different-key issuer is left out") }
+                else { ctx.fail("C01.object.history.issuer", format!("issuer={name}"), "the offered issuer does not validate under its trust anchor") }
+                continue
+            };
+            let eff = [oh_eff(&parent_iv[0], &res.v4, mode), oh_eff(&parent_iv[1], &res.v6, mode), oh_eff(&parent_iv[2], &res.asn, mode)];
+            let [Some(v4), Some(v6), Some(asn)] = eff else { ctx.machinery_error(format!("object.history: issuer {name} overclaims by construction")); continue };
+            let want = Obs::AcceptedWith { v4: v4.clone(), v6: v6.clone(), asn: asn.clone(), tal: tal_name.to_string() };
+            if oh_obs(&rc) != want { ctx.fail("C01.object.history.issuer", format!("issuer={name}"), format!("validated issuer is {:x?}, model {:x?}", oh_obs(&rc), want)) }
+            issuers.push(OIssuer { name, rc, key_ok: key == CA_KEY, aki_ok: key == CA_KEY || forged_ski, v4, v6, asn, tal: tal_name });
+        }
+        let env = OEnv {
+            issuers,
+            tals: vec![tal(), TalInfo::from_name("other".into()).into_arc()],
+            instants: vec![("inside", true, time(T0)), ("1s-before", false, time(y2000 - 1)), ("1s-after", false, time(y2100 + 1))],
+        };
+        // the subjects: claims that every "fewer" issuer fails to cover in exactly one family
+        let claims = Res { v4: Claim::Blocks(vec![(0x0a00_0000, 0x0a00_00ff), (0x0a00_0200, 0x0a00_02ff)]), v6: Claim::Blocks(vec![v6p(db8, 48)]), asn: Claim::Blocks(vec![(64500, 64501), (64510, 64510)]) };
+        let as_only = Res { v4: Claim::Missing, v6: Claim::Missing, asn: claims.asn.clone() };
+        let mixed = Res { v4: Claim::Inherit, v6: claims.v6.clone(), asn: Claim::Inherit };
+        let mut subjects: Vec<OSubject> = Vec::new();
+        for (kind, label, res, mode) in [
+            (Kind::Ca, "ca.refuse", claims.clone(), Overclaim::Refuse), (Kind::Ca, "ca.trim", claims.clone(), Overclaim::Trim), (Kind::Ca, "ca.inherit-v4-as", mixed.clone(), Overclaim::Refuse),
+            (Kind::Ee, "ee.refuse", claims.clone(), Overclaim::Refuse), (Kind::Ee, "ee.trim", claims.clone(), Overclaim::Trim), (Kind::Ee, "ee.inherit-v4-as", mixed.clone(), Overclaim::Refuse),
+            (Kind::Router, "router.refuse", as_only.clone(), Overclaim::Refuse), (Kind::Router, "router.trim", as_only.clone(), Overclaim::Trim),
+            (Kind::Ta, "ta", Res::all(), Overclaim::Refuse),
+        ] {
+            let mut spec = if kind == Kind::Ta { Spec::ta(TA_KEY, res.clone()) } else { Spec::issued(kind, if kind == Kind::Ca { CA2_KEY } else { LEAF_KEY }, CA_KEY, signer.ski(CA_KEY), res.clone(), mode) };
+            spec.validity = window;
+            subjects.push(OSubject { label, kind, mode, res, der: build_cert_der(&signer, &spec) });
+        }
+        let carriers: [Carrier; 4] = [Carrier::Same, Carrier::Recovered, Carrier::CloneAfter, Carrier::CloneBefore];
+        let mut bound = Vec::new();
+        for subj in &subjects {
+            let menu = oh_menu(subj.kind, env.issuers.len());
+            // the freshly decoded twin: one object per call, and the model
+            let fresh: Vec<Obs> = menu.par_iter().map(|(call, _)| {
+                let wit = || format!("subject={} call={}", subj.label, env.call_name(*call));
+                match guard(|| env.run(&subj.der, &[*call], Carrier::Same)) {
+                    Ok(o) => {
+                        let m = env.model(subj, *call);
+                        if o != m { ctx.fail(if m == Obs::Rejected { "C01.object.history.model.reject" } else { "C01.object.history.model.accept" }, wit(), format!("a freshly decoded certificate gives {o:x?}, the model {m:x?}")) }
+                        o
+                    }
+                    Err(p) => { ctx.fail("C01.object.history.nopanic", wit(), p); Obs::Rejected }
+                }
+            }).collect();
+            sp.evals(menu.len() as u64);
+            // a second run of the single calls: the harness owns every choice
+            let again: Vec<Obs> = menu.iter().map(|(call, _)| guard(|| env.run(&subj.der, &[*call], Carrier::Same)).unwrap_or(Obs::Rejected)).collect();
+            if again != fresh { ctx.machinery_error(format!("object.history: single-call observations of {} differ between two runs", subj.label)) }
+            let core: Vec<usize> = (0..menu.len()).filter(|i| menu[*i].1).collect();
+            // by-reference kinds have nothing to recover from a result; by-value kinds clone at every call anyway
+            let cs: Vec<Carrier> = carriers.iter().copied().filter(|c| if subj.kind == Kind::Router { *c != Carrier::Recovered } else { *c != Carrier::CloneAfter }).collect();
+            let work: Vec<(Carrier, usize)> = cs.iter().flat_map(|c| (0..menu.len()).map(move |a| (*c, a))).collect();
+            work.par_iter().for_each(|&(carrier, a)| {
+                let mut oc: BTreeMap<&'static str, u64> = BTreeMap::new();
+                let (mut n, mut nt) = (0u64, 0u64);
+                let mut judge = |seq: &[usize]| {
+                    n += 1;
+                    let last = *seq.last().unwrap();
+                    if seq[..seq.len() - 1].iter().any(|i| fresh[*i] != fresh[last]) { nt += 1 }
+                    let prev = seq[seq.len() - 2];
+                    *oc.entry(match (fresh[prev] != Obs::Rejected, fresh[last] != Obs::Rejected) { (true, true) => "accepted-after-accepted", (true, false) => "rejected-after-accepted", (false, true) => "accepted-after-rejected", (false, false) => "rejected-after-rejected" }).or_insert(0) += 1;
+                    let calls: Vec<OCall> = seq.iter().map(|i| menu[*i].0).collect();
+                    let wit = || format!("subject={} object={} calls=[{}]", subj.label, carrier.name(), calls.iter().map(|c| env.call_name(*c)).collect::<Vec<_>>().join(" ; "));
+                    match guard(|| env.run(&subj.der, &calls, carrier)) {
+                        Err(p) => ctx.fail("C01.object.history.nopanic", wit(), p),
+                        Ok(got) => if got != fresh[last] {
+                            ctx.fail(if fresh[last] == Obs::Rejected { "C01.object.history.fresh_twin.reject" } else { "C01.object.history.fresh_twin.accept" }, wit(),
+                                format!("the last call gives {got:x?} on the object with this history; a freshly decoded copy of the same certificate gives {:x?} for that call alone", fresh[last]));
+                        },
+                    }
+                };
+                for b in 0..menu.len() { judge(&[a, b]) }
+                if thorough && menu[a].1 { for &b in &core { for &c in &core { judge(&[a, b, c]) } } }
+                sp.evals(n); sp.nontrivial(nt); sp.merge_outcomes(&oc);
+            });
+            sp.sample_str(|| format!("subject={}: {} calls ({} in the core), {} object carriers; e.g. {} -> {:x?}", subj.label, menu.len(), core.len(), cs.len(), env.call_name(menu[0].0), fresh[0]));
+            bound.push(format!("{}: {} calls", subj.label, menu.len()));
+        }
+        sp.set("issuers", serde_json::json!(env.issuers.iter().map(|i| i.name).collect::<Vec<_>>()));
+        sp.done(true, &format!("all ordered pairs{} of calls x object carriers, per subject ({})", if thorough { " of the menu and all triples of its core" } else { "" }, bound.join(", ")));
+    }
+
     //---------------------------------------------------------------- environment
     {
         let sp = ctx.space("environment.tz",
@@ -1338,4 +1471,256 @@ fn check_accepted(cert: &[u8], kind: Kind, iss: &IssuerFacts, rc: Option<&Resour
         if let Some(e) = expect { if e != got { return Err(("resources", format!("{name}: result {got:x?}, the certificate's entries {entries:x?} under issuer {issuer:x?} give {e:x?}"))) } }
     }
     Ok(if r.trailing_in_ext_value > 0 { "accepted-verified-trailing-octets-in-extension-value" } else { "accepted-verified" })
+}
+
+//==================================================================== object-level history
+// (space `object.history`)
+
+type Iv = Vec<(u128, u128)>;
+
+/// The validation families of the public API.
+#[derive(Clone, Copy, PartialEq, Eq, Debug)]
+enum EFam { Ca, Ee, Det, Router, Ta }
+
+impl EFam {
+    const ALL: [EFam; 5] = [EFam::Ca, EFam::Ee, EFam::Det, EFam::Router, EFam::Ta];
+    /// (inspect_*, verify_* stem, validate_* stem)
+    fn stems(self) -> (&'static str, &'static str, &'static str) {
+        match self {
+            EFam::Ca => ("inspect_ca", "verify_ca", "validate_ca"), EFam::Ee => ("inspect_ee", "verify_ee", "validate_ee"),
+            EFam::Det => ("inspect_detached_ee", "verify_ee", "validate_detached_ee"), EFam::Router => ("inspect_router", "verify_router", "validate_router"),
+            EFam::Ta => ("inspect_ta", "verify_ta", "validate_ta"),
+        }
+    }
+    /// The families a certificate of this kind conforms to.
+    fn of(kind: Kind) -> &'static [EFam] {
+        match kind { Kind::Ca => &[EFam::Ca], Kind::Ee => &[EFam::Ee, EFam::Det], Kind::Router => &[EFam::Router], Kind::Ta => &[EFam::Ta] }
+    }
+}
+
+#[derive(Clone, Copy, PartialEq, Eq, Debug)]
+enum Route {
+    /// validate_X_at(issuer, strict, t)
+    ValidateAt(bool),
+    /// inspect_X(strict) on the object, then verify_X_at(issuer, strict, t)
+    InspectVerifyAt,
+    /// validate_X(issuer, strict): reads the wall clock (inside the subjects' window 2000..2100)
+    ValidateNow,
+    /// inspect_X + verify_X
+    InspectVerifyNow,
+    /// trust anchors: inspect_ta + verify_ta_ref_at / verify_ta_ref (by reference, no result object)
+    RefAt, RefNow,
+}
+
+#[derive(Clone, Copy, PartialEq, Eq, Debug)]
+enum OCall {
+    /// `iss` indexes the offered issuers (trust-anchor family: the TALs)
+    Entry { fam: EFam, route: Route, iss: usize, inst: usize },
+    Validity { inst: usize },
+    IssuerClaim { iss: usize },
+    Signature { iss: usize },
+    Inspect { fam: EFam, strict: bool },
+}
+
+/// Everything the property speaks about: the verdict and what is attached to an acceptance.
+#[derive(Clone, PartialEq, Eq, Debug)]
+enum Obs { Rejected, Accepted, AcceptedWith { v4: Iv, v6: Iv, asn: Iv, tal: String } }
+
+#[derive(Clone, Copy, PartialEq, Eq, Debug)]
+enum Carrier { Same, Recovered, CloneAfter, CloneBefore }
+
+impl Carrier {
+    fn name(self) -> &'static str {
+        match self {
+            Carrier::Same => "same-object-every-call",
+            Carrier::Recovered => "continue-on-the-certificate-inside-the-returned-ResourceCert",
+            Carrier::CloneAfter => "continue-on-a-clone-made-after-the-call",
+            Carrier::CloneBefore => "first-call-on-the-original,then-a-clone-made-before-it",
+        }
+    }
+}
+
+struct OIssuer { name: &'static str, rc: ResourceCert, key_ok: bool, aki_ok: bool, v4: Iv, v6: Iv, asn: Iv, tal: &'static str }
+
+struct OSubject { label: &'static str, kind: Kind, mode: Overclaim, res: Res, der: Vec<u8> }
+
+struct OEnv {
+    issuers: Vec<OIssuer>,
+    tals: Vec<std::sync::Arc<rpki::repository::tal::TalInfo>>,
+    instants: Vec<(&'static str, bool, rpki::repository::x509::Time)>,
+}
+
+/// One family of the interval model: what a claim is worth under an issuer holding `issuer`.
+fn oh_eff(issuer: &Iv, claim: &Claim, mode: Overclaim) -> Option<Iv> {
+    use rpki_verif::engine::certref as cr;
+    match claim {
+        Claim::Missing => Some(Vec::new()),
+        Claim::Inherit => Some(issuer.clone()),
+        Claim::Blocks(b) => {
+            let b = cr::normalise(b);
+            match mode { Overclaim::Refuse => if cr::subset(&b, issuer) { Some(b) } else { None }, Overclaim::Trim => Some(cr::intersect(&b, issuer)) }
+        }
+    }
+}
+
+fn oh_obs(rc: &ResourceCert) -> Obs {
+    use rpki_verif::engine::certref as cr;
+    Obs::AcceptedWith {
+        v4: cr::normalise(&rc.v4_resources().iter().map(|b| (b.min().to_bits() >> 96, b.max().to_bits() >> 96)).collect::<Vec<_>>()),
+        v6: cr::normalise(&rc.v6_resources().iter().map(|b| (b.min().to_bits(), b.max().to_bits())).collect::<Vec<_>>()),
+        asn: cr::normalise(&rc.as_resources().iter().map(|b| (b.min().into_u32() as u128, b.max().into_u32() as u128)).collect::<Vec<_>>()),
+        tal: rc.tal().name().to_string(),
+    }
+}
+
+/// The menu of calls for an object of `kind`; the flag marks the core (used for triples).
+fn oh_menu(kind: Kind, n_issuers: usize) -> Vec<(OCall, bool)> {
+    let mut m: Vec<(OCall, bool)> = Vec::new();
+    let own = EFam::of(kind);
+    // issuers 0 (right), 1 (same key, fewer AS) and the last one (foreign key, right identifier value, if it could be built)
+    let few: Vec<usize> = { let mut v = vec![0, 1, n_issuers - 1]; v.dedup(); v };
+    for (fi, &fam) in own.iter().enumerate() {
+        let n_iss = if fam == EFam::Ta { 2 } else { n_issuers };
+        for iss in 0..n_iss { for inst in 0..3 { m.push((OCall::Entry { fam, route: Route::ValidateAt(true), iss, inst }, fi == 0 || (inst == 0 && few.contains(&iss)))) } }
+        let mut secondary = vec![Route::ValidateAt(false), Route::InspectVerifyAt];
+        if fam == EFam::Ta { secondary.push(Route::RefAt) }
+        for route in secondary {
+            for iss in 0..n_iss { if route == Route::RefAt && iss > 0 { continue } m.push((OCall::Entry { fam, route, iss, inst: 0 }, few.contains(&iss))) }
+            for inst in 1..3 { m.push((OCall::Entry { fam, route, iss: 0, inst }, false)) }
+        }
+        let mut clock = vec![Route::ValidateNow, Route::InspectVerifyNow];
+        if fam == EFam::Ta { clock.push(Route::RefNow) }
+        for route in clock { for iss in 0..n_iss { if route == Route::RefNow && iss > 0 { continue } m.push((OCall::Entry { fam, route, iss, inst: 0 }, route == Route::ValidateNow && few.contains(&iss))) } }
+    }
+    for inst in 0..3 { m.push((OCall::Validity { inst }, true)) }
+    for iss in 0..n_issuers { m.push((OCall::IssuerClaim { iss }, iss == 0 || iss == n_issuers - 2)) }
+    for iss in 0..n_issuers { m.push((OCall::Signature { iss }, iss == 0 || iss == n_issuers - 1)) }
+    for fam in EFam::ALL { for strict in [true, false] { m.push((OCall::Inspect { fam, strict }, false)) } }
+    for fam in EFam::ALL { if !own.contains(&fam) { m.push((OCall::Entry { fam, route: Route::ValidateAt(true), iss: 0, inst: 0 }, false)) } }
+    m
+}
+
+impl OEnv {
+    fn call_name(&self, call: OCall) -> String {
+        match call {
+            OCall::Entry { fam, route, iss, inst } => {
+                let (i, ver, val) = fam.stems();
+                let whom = if fam == EFam::Ta { format!("tal={}", self.tals[iss % self.tals.len()].name()) } else { format!("issuer={}", self.issuers[iss].name) };
+                let t = self.instants[inst].0;
+                match route {
+                    Route::ValidateAt(strict) => format!("{val}_at({whom},{},t={t})", if strict { "strict" } else { "relaxed" }),
+                    Route::InspectVerifyAt => format!("{i}+{ver}_at({whom},strict,t={t})"),
+                    Route::ValidateNow => format!("{val}({whom},strict,wall-clock)"),
+                    Route::InspectVerifyNow => format!("{i}+{ver}({whom},strict,wall-clock)"),
+                    Route::RefAt => format!("{i}+{ver}_ref_at(strict,t={t})"),
+                    Route::RefNow => format!("{i}+{ver}_ref(strict,wall-clock)"),
+                }
+            }
+            OCall::Validity { inst } => format!("verify_validity(t={})", self.instants[inst].0),
+            OCall::IssuerClaim { iss } => format!("verify_issuer_claim(issuer={})", self.issuers[iss].name),
+            OCall::Signature { iss } => format!("verify_signature(issuer={})", self.issuers[iss].name),
+            OCall::Inspect { fam, strict } => format!("{}({})", fam.stems().0, if strict { "strict" } else { "relaxed" }),
+        }
+    }
+
+    /// One call on the object `c`. By-value routes consume a clone made here; the second
+    /// component is the certificate inside the returned ResourceCert, if there is one.
+    fn exec(&self, c: &Cert, call: OCall) -> (Obs, Option<Cert>) {
+        fn fin<E>(r: Result<ResourceCert, E>) -> (Obs, Option<Cert>) { match r { Ok(rc) => (oh_obs(&rc), Some(rc.as_cert().clone())), Err(_) => (Obs::Rejected, None) } }
+        fn unit(ok: bool) -> (Obs, Option<Cert>) { (if ok { Obs::Accepted } else { Obs::Rejected }, None) }
+        match call {
+            OCall::Validity { inst } => unit(c.verify_validity(self.instants[inst].2).is_ok()),
+            OCall::IssuerClaim { iss } => unit(c.verify_issuer_claim(&self.issuers[iss].rc, true).is_ok()),
+            OCall::Signature { iss } => unit(c.verify_signature(self.issuers[iss].rc.as_cert(), true).is_ok()),
+            OCall::Inspect { fam, strict } => unit(match fam {
+                EFam::Ca => c.inspect_ca(strict).is_ok(), EFam::Ee => c.inspect_ee(strict).is_ok(), EFam::Det => c.inspect_detached_ee(strict).is_ok(),
+                EFam::Router => c.inspect_router(strict).is_ok(), EFam::Ta => c.inspect_ta(strict).is_ok(),
+            }),
+            OCall::Entry { fam, route, iss, inst } => {
+                let t = self.instants[inst].2;
+                if fam == EFam::Ta {
+                    let tal = self.tals[iss % self.tals.len()].clone();
+                    return match route {
+                        Route::ValidateAt(s) => fin(c.clone().validate_ta_at(tal, s, t)),
+                        Route::InspectVerifyAt => if c.inspect_ta(true).is_err() { unit(false) } else { fin(c.clone().verify_ta_at(tal, true, t)) },
+                        Route::ValidateNow => fin(c.clone().validate_ta(tal, true)),
+                        Route::InspectVerifyNow => if c.inspect_ta(true).is_err() { unit(false) } else { fin(c.clone().verify_ta(tal, true)) },
+                        Route::RefAt => unit(c.inspect_ta(true).is_ok() && c.verify_ta_ref_at(true, t).is_ok()),
+                        Route::RefNow => unit(c.inspect_ta(true).is_ok() && c.verify_ta_ref(true).is_ok()),
+                    }
+                }
+                let i = &self.issuers[iss].rc;
+                match (fam, route) {
+                    (EFam::Ca, Route::ValidateAt(s)) => fin(c.clone().validate_ca_at(i, s, t)),
+                    (EFam::Ca, Route::InspectVerifyAt) => if c.inspect_ca(true).is_err() { unit(false) } else { fin(c.clone().verify_ca_at(i, true, t)) },
+                    (EFam::Ca, Route::ValidateNow) => fin(c.clone().validate_ca(i, true)),
+                    (EFam::Ca, Route::InspectVerifyNow) => if c.inspect_ca(true).is_err() { unit(false) } else { fin(c.clone().verify_ca(i, true)) },
+                    (EFam::Ee, Route::ValidateAt(s)) => fin(c.clone().validate_ee_at(i, s, t)),
+                    (EFam::Ee, Route::InspectVerifyAt) => if c.inspect_ee(true).is_err() { unit(false) } else { fin(c.clone().verify_ee_at(i, true, t)) },
+                    (EFam::Ee, Route::ValidateNow) => fin(c.clone().validate_ee(i, true)),
+                    (EFam::Ee, Route::InspectVerifyNow) => if c.inspect_ee(true).is_err() { unit(false) } else { fin(c.clone().verify_ee(i, true)) },
+                    (EFam::Det, Route::ValidateAt(s)) => fin(c.clone().validate_detached_ee_at(i, s, t)),
+                    (EFam::Det, Route::InspectVerifyAt) => if c.inspect_detached_ee(true).is_err() { unit(false) } else { fin(c.clone().verify_ee_at(i, true, t)) },
+                    (EFam::Det, Route::ValidateNow) => fin(c.clone().validate_detached_ee(i, true)),
+                    (EFam::Det, Route::InspectVerifyNow) => if c.inspect_detached_ee(true).is_err() { unit(false) } else { fin(c.clone().verify_ee(i, true)) },
+                    (EFam::Router, Route::ValidateAt(s)) => unit(c.validate_router_at(i, s, t).is_ok()),
+                    (EFam::Router, Route::InspectVerifyAt) => unit(c.inspect_router(true).is_ok() && c.verify_router_at(i, true, t).is_ok()),
+                    (EFam::Router, Route::ValidateNow) => unit(c.validate_router(i, true).is_ok()),
+                    (EFam::Router, Route::InspectVerifyNow) => unit(c.inspect_router(true).is_ok() && c.verify_router(i, true).is_ok()),
+                    (_, Route::RefAt) | (_, Route::RefNow) | (EFam::Ta, _) => unreachable!("route not in the menu"),
+                }
+            }
+        }
+    }
+
+    /// Decodes ONE object and runs the calls on it (and its clones, as the carrier says);
+    /// returns the observation of the last call.
+    fn run(&self, der: &[u8], calls: &[OCall], carrier: Carrier) -> Obs {
+        let obj = Cert::decode(der).expect("subject decodes");
+        let mut before = if carrier == Carrier::CloneBefore { Some(obj.clone()) } else { None };
+        let mut kept_alive: Vec<Cert> = Vec::new();
+        let mut cur = obj;
+        let mut last = Obs::Rejected;
+        for (k, call) in calls.iter().enumerate() {
+            let (o, recovered) = self.exec(&cur, *call);
+            last = o;
+            if k + 1 == calls.len() { break }
+            match carrier {
+                Carrier::Same => {}
+                Carrier::Recovered => if let Some(r) = recovered { cur = r },
+                Carrier::CloneAfter => { let c = cur.clone(); cur = c }
+                Carrier::CloneBefore => if let Some(b) = before.take() { kept_alive.push(std::mem::replace(&mut cur, b)) },
+            }
+        }
+        drop(kept_alive);
+        last
+    }
+
+    /// The interval model of one call on a subject, from how the subject and the issuers were built.
+    fn model(&self, s: &OSubject, call: OCall) -> Obs {
+        let own = EFam::of(s.kind);
+        let unit = |ok: bool| if ok { Obs::Accepted } else { Obs::Rejected };
+        match call {
+            OCall::Validity { inst } => unit(self.instants[inst].1),
+            // a trust anchor carries no authority key identifier and is signed with its own key
+            OCall::IssuerClaim { iss } => unit(s.kind != Kind::Ta && self.issuers[iss].aki_ok),
+            OCall::Signature { iss } => unit(s.kind != Kind::Ta && self.issuers[iss].key_ok),
+            OCall::Inspect { fam, .. } => unit(own.contains(&fam)),
+            OCall::Entry { fam, route, iss, inst } => {
+                let time_ok = matches!(route, Route::ValidateNow | Route::InspectVerifyNow | Route::RefNow) || self.instants[inst].1;
+                if !own.contains(&fam) || !time_ok { return Obs::Rejected }
+                if fam == EFam::Ta {
+                    if matches!(route, Route::RefAt | Route::RefNow) { return Obs::Accepted }
+                    let all = |c: &Claim| match c { Claim::Blocks(b) => b.clone(), _ => Vec::new() };
+                    return Obs::AcceptedWith { v4: all(&s.res.v4), v6: all(&s.res.v6), asn: all(&s.res.asn), tal: self.tals[iss % self.tals.len()].name().to_string() }
+                }
+                let i = &self.issuers[iss];
+                if !i.key_ok || !i.aki_ok { return Obs::Rejected }
+                match (oh_eff(&i.v4, &s.res.v4, s.mode), oh_eff(&i.v6, &s.res.v6, s.mode), oh_eff(&i.asn, &s.res.asn, s.mode)) {
+                    (Some(v4), Some(v6), Some(asn)) => if fam == EFam::Router { Obs::Accepted } else { Obs::AcceptedWith { v4, v6, asn, tal: i.tal.to_string() } },
+                    _ => Obs::Rejected,
+                }
+            }
+        }
+    }
 }
